@@ -116,7 +116,9 @@ def do_poke(kind: str, poke: str, operand: str = "None"):
         elif poke == "liquid":
             v = [hasattr(u, "__liquid__"), u.__liquid__()]
         elif poke == "cls":
-            v = [isinstance(u, (int, str)), u.__class__ is cls]
+            from liquid.undefined import is_undefined
+
+            v = [isinstance(u, (int, str)), u.__class__ is cls, is_undefined(u)]
         elif poke == "attr":
             v = u.poke()
         else:
